@@ -72,14 +72,14 @@ impl DcpsDomainParticipant {
             .iter_mut()
             .find(|x| &x.instance_handle == publisher_handle)
         else {
-            return Ok(());
+            return Err(DdsError::AlreadyDeleted);
         };
         let Some(data_writer) = publisher
             .data_writer_list
             .iter_mut()
             .find(|x| &x.instance_handle == data_writer_handle)
         else {
-            return Ok(());
+            return Err(DdsError::AlreadyDeleted);
         };
 
         let listener_sender = dcps_listener.map(|l| l.spawn(&runtime.spawner()));
